@@ -2,6 +2,7 @@
 From Coq Require Import ZArith NArith List Bool Ascii String Lia.
 Require Import CGT.Model.Date CGT.Model.Dsl CGT.Proofs.DslFacts CGT.Proofs.DslRound CGT.Proofs.DslCase CGT.Proofs.DslLayout.
 Require Import CGT.Generated.Grammar.
+Require CGT.Model.Report CGT.Model.Fx CGT.Model.Pipeline CGT.Proofs.PipelineFacts.
 Import ListNotations.
 Open Scope N_scope.
 
@@ -109,3 +110,15 @@ Print Assumptions C13_comment_line.
 Print Assumptions C13_leading_blanks.
 Print Assumptions C13_line_endings.
 Print Assumptions C13_nothing_skipped.
+
+(* ... and therefore the report: the whole path from text to report (Model/Pipeline.v) sees a text only through the transactions read from it, so two
+   texts that differ only in letter case - or in anything else the reader is proved insensitive to above - give the same report or the same error, for
+   any rates, exemptions and year filter *)
+Theorem C13_report_depends_on_parse_only : forall valid_cur rates cfg year s s',
+  parse valid_cur s = parse valid_cur s' -> Pipeline.pipeline valid_cur rates cfg year s = Pipeline.pipeline valid_cur rates cfg year s'.
+Proof. exact PipelineFacts.pipeline_same_parse. Qed.
+Theorem C13_report_letter_case : forall valid_cur rates cfg year s s',
+  map upper s = map upper s' -> Pipeline.pipeline valid_cur rates cfg year s = Pipeline.pipeline valid_cur rates cfg year s'.
+Proof. exact PipelineFacts.pipeline_letter_case. Qed.
+Print Assumptions C13_report_depends_on_parse_only.
+Print Assumptions C13_report_letter_case.
